@@ -173,7 +173,7 @@ theorem insertAfter_eval_kid {Z : Forest} {po q : Nat} {vo vq : Value} {l r l1 r
     rw [hGL, dropTop_mid rfl tl1 tr1]
   have hsubY : (handlesList (l1 ++ r1)).Sublist (handlesList (l ++ t :: r)) := by
     refine List.Sublist.trans ?_ hsub
-    simp only [handlesList_append, handlesList_cons]
+    simp only [fs_handlesList_append, handlesList_cons]
     exact (List.Sublist.refl _).append (List.sublist_append_right _ _)
   have hlookY : findList? q (l1 ++ r1) = findList? q (l ++ t :: r) := by
     rw [← hlook, findList?_append, findList?_append, findList?_cons, find?_eq_none t hqt]
@@ -302,7 +302,7 @@ theorem gap_of_args {f : Forest} {a b q : Nat} {vq : Value} {l0 : List HTree} {P
     intro e
     apply ra.hqt
     rw [← e, ← ra.hb]
-    exact handle_mem_handles t
+    exact fs_handle_mem_handles t
   have get1 : (f.editAt (some q) (dropTop a)).get? b = some t := by
     rw [Forest.get?_editAt_other hbq nd (by
       intro v' L' e
